@@ -338,6 +338,17 @@ func (e *Exec) strConcat(x, y *StrV) Value {
 	if y.len.IsConst() && y.len.val == 0 {
 		return x
 	}
+	if x.len.IsConst() && !y.len.IsConst() && y.off.IsConst() && y.arr != nil {
+		// exact: the bytes of x followed by the backing window of y, length len(x)+len(y)
+		bs := append(append([]*Term{}, e.strBytes(x)...), e.windowBytes(y.arr, int(y.off.val))...)
+		r := e.mkString(bs)
+		r.len = e.tb.Add(x.len, y.len)
+		e.strPieces[r.arr] = []*StrV{x, y}
+		if rec, ok := e.strMeta[y.arr]; ok {
+			e.strMeta[r.arr] = &fmtRecord{format: "%s%s", args: append([]Value{x}, rec.args...)}
+		}
+		return r
+	}
 	if !x.len.IsConst() || !y.len.IsConst() {
 		// concatenation with a string of symbolic length (opaque formatted text): the result is
 		// opaque too; its parts are recorded for dependence analysis
@@ -690,6 +701,44 @@ func (e *Exec) builtin(name string, args []Value, c *ssa.CallCommon) Value {
 		return r
 	case "clear":
 		switch q := args[0].(type) {
+		case *SliceV:
+			if q.arr == nil {
+				return &TupleV{}
+			}
+			e.noteWrite(q.arr.obj, "clear")
+			if q.off.IsConst() && scalarCells(q.arr) {
+				// element-wise: cell off+i becomes zero when i < len
+				do := int(q.off.val)
+				for i := 0; do+i < len(q.arr.cells); i++ {
+					c := q.arr.cells[do+i]
+					old := c.v.(*Term)
+					in := e.tb.Ult(e.c64(int64(i)), q.len)
+					if in.IsFalse() {
+						break
+					}
+					e.setLeaf(c, e.tb.Ite(in, e.tb.Const(old.w, 0), old))
+				}
+				return &TupleV{}
+			}
+			if scalarCells(q.arr) && len(q.arr.cells) <= 4096 {
+				// symbolic offset and length: cell j is zeroed when off <= j < off+len
+				end := e.tb.Add(q.off, q.len)
+				for j, c := range q.arr.cells {
+					jt := e.c64(int64(j))
+					in := e.tb.And(e.tb.Ule(q.off, jt), e.tb.Ult(jt, end))
+					if in.IsFalse() {
+						continue
+					}
+					old := c.v.(*Term)
+					e.setLeaf(c, e.tb.Ite(in, e.tb.Const(old.w, 0), old))
+				}
+				return &TupleV{}
+			}
+			n := e.concLen(q.len, "clear length")
+			for i := 0; i < n; i++ {
+				e.arrSetTrail(q.arr, e.tb.Add(q.off, e.c64(int64(i))), e.zero(q.arr.elem))
+			}
+			return &TupleV{}
 		case *MapV:
 			if q.m != nil {
 				if e.trailOn {
